@@ -101,7 +101,11 @@ pub fn sm3_hash(msg: &[u8]) -> [u8; 32] {
         for i in (count_group * 64)..(count_group * 64 + 64) {
             b_i[i - count_group * 64] = msg[i];
         }
+        #[cfg(gm_rs_verif)]
+        let v_before = v_i;
         cf(&mut v_i, b_i);
+        #[cfg(gm_rs_verif)]
+        verif::observe_block(count_group as u64, &v_before, &v_i);
         count_group += 1;
     }
     let mut output: [u8; 32] = [0; 32];
@@ -232,5 +236,40 @@ mod test {
             "debe9ff92275b8a138604889c18e5a4d6fdb70e5387e5765293dcba39c0c5732",
             r
         );
+    }
+}
+
+/// Verification hooks (compiled only with `--cfg gm_rs_verif`): a per-block observer of the compression chain.
+#[cfg(gm_rs_verif)]
+pub mod verif {
+    use std::cell::RefCell;
+    use std::collections::HashSet;
+
+    #[derive(Clone, Debug)]
+    pub struct BlockEvent {
+        pub index: u64,
+        pub v_in: [u32; 8],
+        pub v_out: [u32; 8],
+    }
+    thread_local! {
+        static SAMPLE: RefCell<Option<(HashSet<u64>, u64)>> = RefCell::new(None);
+        static LOG: RefCell<Vec<BlockEvent>> = RefCell::new(Vec::new());
+    }
+    /// Record the compressions of the blocks in `indices` and of every block with index >= `tail_from`.
+    pub fn observe(indices: HashSet<u64>, tail_from: u64) {
+        SAMPLE.with(|s| *s.borrow_mut() = Some((indices, tail_from)));
+    }
+    pub fn stop() -> Vec<BlockEvent> {
+        SAMPLE.with(|s| *s.borrow_mut() = None);
+        LOG.with(|l| std::mem::take(&mut *l.borrow_mut()))
+    }
+    pub(crate) fn observe_block(index: u64, v_in: &[u32; 8], v_out: &[u32; 8]) {
+        SAMPLE.with(|s| {
+            if let Some((set, tail)) = &*s.borrow() {
+                if index >= *tail || set.contains(&index) {
+                    LOG.with(|l| l.borrow_mut().push(BlockEvent { index, v_in: *v_in, v_out: *v_out }));
+                }
+            }
+        });
     }
 }
